@@ -117,6 +117,16 @@ Lemma C06_dispatch_cases : forall fuel c tp s mi ev r m o p',
   end.
 Proof. reflexivity. Qed.
 
-Check FrameworkCorollaries.transition_none_frame.
-Definition C06_no_target_frame := FrameworkCorollaries.transition_none_frame.
+Theorem C06_no_target_frame : forall fuel c tp s mi ev r m st p',
+  nth_error (rts s) mi = Some r -> cur r <> STATE_END ->
+  nth_error (machines c) mi = Some m -> nthN (states m) (cur r) = Some st ->
+  sample_state tp (pos s) st ev = (None, p') ->
+  exists s1, transition (S fuel) c tp s mi ev = Ok (s1, false) /\
+    (now s1 = now s /\ fstart s1 = fstart s /\ rts s1 = rts s /\ slots s1 = slots s /\
+     gnorm s1 = gnorm s /\ gpad s1 = gpad s /\ gblk s1 = gblk s /\ bstart s1 = bstart s /\
+     bactive s1 = bactive s /\ sigp s1 = sigp s) /\
+    pos s1 = p' /\ (p' = pos s \/ p' = S (pos s)) /\
+    (nsteps s1 = nsteps s + 1)%N /\
+    flog s1 = (LOG_TRANS, N.of_nat mi, N.of_nat (event_idx ev)) :: flog s.
+Proof. exact FrameworkCorollaries.transition_none_frame. Qed.
 Print Assumptions C06_no_target_frame.
